@@ -1680,7 +1680,93 @@ fn gen_live(g: &mut Gen) {
     }
 }
 
+
+/// "Large cases": sides 8–12, 1×70 / 70×1, stacks of depth 4–5, partitions into up to 7×7 parts,
+/// live views over larger matrices — so that code that only runs from some size on is executed.
+fn gen_large(g: &mut Gen) {
+    let sizes = [(8usize, 9usize), (12, 12), (1, 70), (70, 1), (10, 11), (9, 8)];
+    for (k, &(rows, cols)) in sizes.iter().enumerate() {
+        for leaf in ["matrix", "cmatrix"] {
+            // the bare source
+            g.op(format!("@ {} {} {}", leaf, rows, cols));
+            g.count(&format!("large.leaf.{}", leaf));
+            gen_queries(g, rows, cols, "large", true);
+            for via in SCAN_VIAS {
+                g.op(format!("scan via={}", via));
+            }
+            // the four reversals
+            let (rr, rc) = (k % 2, (k / 2) % 2);
+            g.op(format!("@ {} {} {}", leaf, rows, cols));
+            let via = *g.rng.pick(&REVERSE_VIAS);
+            g.op(format!("mreverse {} {} via={}", 1 - rr, 1 - rc.min(rr), via));
+            gen_queries(g, rows, cols, "large.mreverse", true);
+            // interior, clipped and overflowing ranges
+            for (r, c) in [((1usize, rows.saturating_sub(2)), (1usize, cols.saturating_sub(2))), ((rows / 2, MAX), (0, MAX - 1)), ((0, rows), (cols / 3, cols))] {
+                g.op(format!("@ {} {} {}", leaf, rows, cols));
+                let via = range_via(g, r, c);
+                g.op(format!("mrange {}:{} {}:{} via={}", r.0, r.1, c.0, c.1, via));
+                g.count("large.mrange");
+                gen_queries(g, clipped(r.0, r.1, rows), clipped(c.0, c.1, cols), "large.mrange", true);
+            }
+            // a stack of depth 4–5
+            g.op(format!("@ {} {} {}", leaf, rows, cols));
+            let (mut vr, mut vc) = (rows, cols);
+            let depth = 4 + k % 2;
+            for d in 0..depth {
+                match d % 3 {
+                    0 => {
+                        let r = (if vr > 3 { 1 } else { 0 }, if d == 0 { MAX } else { vr });
+                        let c = (if vc > 3 { 1 } else { 0 }, vc);
+                        let via = range_via(g, r, c);
+                        g.op(format!("mrange {}:{} {}:{} via={}", r.0, r.1, c.0, c.1, via));
+                        vr = clipped(r.0, r.1, vr);
+                        vc = clipped(c.0, c.1, vc);
+                    }
+                    1 => {
+                        let via = *g.rng.pick(&REVERSE_VIAS);
+                        g.op(format!("mreverse {} {} via={}", (d + k) % 2, 1, via));
+                    }
+                    _ => g.op("roundtrip".to_string()),
+                }
+            }
+            g.count(&format!("large.stack_depth={}", depth));
+            gen_queries(g, vr, vc, "large.stack", true);
+        }
+    }
+    // partitions with many parts
+    for (rows, cols, rp, cp) in [
+        (12usize, 12usize, vec![1usize, 3, 4, 6, 9, 11], vec![2usize, 3, 5, 8, 10, 12]),
+        (12, 12, vec![0, 2, 2, 7, 12], vec![6]),
+        (10, 11, vec![5], vec![1, 2, 3, 4, 5, 6]),
+        (1, 70, vec![], vec![1, 9, 17, 33, 34, 69]),
+        (70, 1, vec![8, 16, 32, 33, 64, 70], vec![]),
+        (9, 8, vec![3, 6], vec![2, 4, 6]),
+    ] {
+        gen_partition_case(g, rows, cols, &rp, &cp, true);
+        g.count("large.partition");
+    }
+    gen_partition_case(g, 12, 12, &[1, 3, 4, 6, 5, 11], &[2], false);
+    gen_partition_case(g, 12, 12, &[4, 5, 6, 7, 8, 4], &[], false);
+    // live reversal views over larger matrices, resized through source_ref_mut()
+    let mut counter: u64 = 10_000;
+    for (round, &(rows0, cols0)) in [(8usize, 9usize), (12, 12), (1, 33), (33, 1)].iter().enumerate() {
+        let (mut rows, mut cols) = (rows0, cols0);
+        let src = ["owned", "mut", "boxed"][round % 3];
+        g.op(format!("@ live {} {} 1:0,0:1,1:1 src={}", rows, cols, src));
+        g.count("large.live");
+        gen_live_queries(g, rows, cols, 3);
+        for _ in 0..4 {
+            let (line, r2, c2) = live_source_op(g, rows, cols, &mut counter);
+            g.op(format!("src {} via=direct", line));
+            rows = r2;
+            cols = c2;
+            gen_live_queries(g, rows, cols, 3);
+        }
+    }
+}
+
 pub fn gen(g: &mut Gen) {
+    gen_large(g);
     gen_live(g);
     gen_ranges(g);
     gen_nested(g);
